@@ -72,6 +72,10 @@ def strategy_(draw):
         c["imax_frac"] = draw(st.floats(0.0, 1.0))
         c["inplace_factor"] = draw(st.floats(1.05, 50.0))
         c["guess_frac"] = draw(st.floats(0.0, 1.0))
+        # row labels of the production table: what pandas gives for monthly files joined without ignore_index
+        # (repeated labels), a shifted range, or dates
+        c["index"] = draw(st.sampled_from(["range", "range", "repeated", "offset", "dates"]))
+        c["index_period"] = draw(st.integers(5, 40))
     return c
 
 
@@ -149,6 +153,14 @@ def check_case(case) -> Result:
     if case["filter"]:
         pres[case["nan_days"]] = np.nan
     prod = pd.DataFrame({"Days": days, "Gas": gas, "Pressure": pres, "Other": np.arange(n)})
+    kind = case.get("index", "range")
+    if kind == "repeated":
+        prod.index = np.arange(n) % case["index_period"]
+    elif kind == "offset":
+        prod.index = np.arange(n) + 1000
+    elif kind == "dates":
+        prod.index = pd.date_range("2020-01-01", periods=n, freq="D")
+    res.labels["index"] = kind
     keep = (gas > 0) & ~np.isnan(pres) if case["filter"] else np.ones(n, bool)
     nk = int(keep.sum())
     if nk < 20:
